@@ -846,6 +846,18 @@ func (vc *VC) callAbstract(env *Env, pf *PureFunc, x *SCall) Val {
 func (vc *VC) assignPats(env *Env, cs []*Clause) []modPat {
 	var pats []modPat
 	for _, c := range cs {
+		if call, isCall := c.Expr.(*SCall); isCall && call.Fun == "mapof" && len(call.Args) == 1 {
+			// mapof(m): every entry (and the size) of the map object m
+			mv := vc.evalSpec(env, call.Args[0])
+			if _, isMap := mv.Typ.Underlying().(*types.Map); isMap {
+				for _, mp := range vc.mapModPats(mv.Typ) {
+					mp.all = false
+					mp.base = mv.T
+					pats = append(pats, mp)
+				}
+				continue
+			}
+		}
 		loc, t, steps, ok := vc.specAddr(env, c.Expr)
 		if !ok {
 			vc.unsupported("assigns: cannot take address of %s", c.Text)
@@ -1010,6 +1022,21 @@ func (f *frame) loopModPats(li *loopInfo, pre *State) []modPat {
 			continue
 		}
 		for _, ins := range b.Instrs {
+			if f.top && f.spec != nil {
+				// ghost assignments anchored at instructions of the loop write their ghost cell
+				for _, a := range f.spec.Asserts {
+					if a.Update == "" || !anchorMatches(ins, a.Anchor) {
+						continue
+					}
+					if g := vc.Eng.Spec.Ghosts[a.Update]; g != nil {
+						if gt := vc.resolveGhostType(f.baseEnv(pre), g); gt != nil {
+							for _, lf := range vc.leaves(gt) {
+								pats = append(pats, modPat{sort: lf.sort, base: vc.ghostLoc(a.Update), steps: lf.steps})
+							}
+						}
+					}
+				}
+			}
 			switch x := ins.(type) {
 			case *ssa.Store:
 				base, steps, relevant := addrPat(x.Addr)
